@@ -38,6 +38,8 @@ if os.path.isdir(os.path.join(zv, "vatomic")):
     rewrites['"sync/atomic"'] = 'atomic "github.com/jig/lisp/zverif/vatomic"'
 if os.path.isdir(os.path.join(zv, "vtime")):
     rewrites['"time"'] = 'time "github.com/jig/lisp/zverif/vtime"'
+if os.path.isdir(os.path.join(zv, "vcontext")):
+    rewrites['"context"'] = 'context "github.com/jig/lisp/zverif/vcontext"'
 skip_dirs = {".git", "debugger", "repl", "cmd", "command", "examples", "example", "zverif", "verifhook"}
 if rewrites:
     for root, dirs, files in os.walk(repo):
